@@ -219,6 +219,13 @@ def mdp : P String := do
   let multi := stGen.finals.length > 1
   let v : Verdict := { tag := "mdp" ++ (if multi then " multicomponent" else " onecomponent") ++ (if st == "some" then "" else " threw") }
   let v := v.diffIf (gModel.length != gImpl.length || !((gModel.zip gImpl).all (fun (a, b) => basisMClose a b))) "backProject model_differs"
+  -- hypothesis `hbp` of `mdpLP_equiv_bellman`, decided exactly on this instance: every g_k is the expectation of h_k
+  let bpOk := (allActs S).all (fun s => (allActs A).all (fun a => (h.zip gModel).all (fun (hk, gk) =>
+    gk.at S A s a == expect S A ddn (hk.at S) s a)))
+  let v := v.diffIf (!bpOk) "backProject model_is_not_the_expectation"
+  -- hypothesis `NoTiny` (no entry in (0, 1e-6]) — only reported
+  let tiny := (h.any (fun f => f.vals.any (fun q => isZeroSmall q && q != 0))) || ((gModel ++ R).any (fun f => f.vals.any (fun q => isZeroSmall q && q != 0)))
+  let v := { v with tag := v.tag ++ (if tiny then " tiny_entries" else "") }
   let v := lpDiff "LinearProgramming" v gen ((mdpStatedObj h).zipIdx.map (fun (q, i) => (i, q))) rec
   let sfx := if multi then "_multi_component" else ""
   match simplex n rows c with
